@@ -7,6 +7,9 @@
      max_value is given - the check the constructor anyio.Semaphore.__init__ performs itself (ValueError
      otherwise; compared by the harness' constructor checks);
    * part 2, where written: `tainted s = false`, see below;
+   * part 1, cancellation at the entry of acquire(): op AcqBeginC = the call is made while a cancelled scope is
+     visible to the caller (the check yields), op CkPass = the check returns normally after the yield (the scope was
+     cut off meanwhile); what decides between Cancel / spin / CkPass is the scope machine (C03), not this model;
    * C10_lim_never_over_granted: the run never assigns total_tokens a value below the number of tokens
      borrowed at that moment (`never_lowered_below_borrowed`); without it over-capacity states are reachable
      and, by C10_lim_grant_only_if_free / C10_lim_no_borrower_added_when_full, only shrink.
@@ -33,7 +36,8 @@ Print Assumptions C10_sem_reserved_meaning.
 Theorem C10_sem_held_tracks_returns : forall s o s' r, step s o = (s', r) ->
   match r with
   | RDone =>
-      (exists t, (o = AcqBegin t \/ o = AcqNowait t \/ o = Resume t) /\ held s' = t :: held s /\ extra s' = extra s) \/
+      (exists t, (o = AcqBegin t \/ o = AcqNowait t \/ o = Resume t \/ o = CkPass t) /\
+                 held s' = t :: held s /\ extra s' = extra s) \/
       (exists t, o = Release t /\
          ((In t (held s) /\ held s' = remove_one t (held s) /\ extra s' = extra s) \/
           (~ In t (held s) /\ held s' = held s /\ extra s' = S (extra s))))
@@ -66,7 +70,7 @@ Proof. exact sem_handoff_first_live. Qed.
 Print Assumptions C10_sem_fifo_handoff_first_live.
 
 Theorem C10_sem_grant_only_if_free : forall fa iv mx s t o, max_ok iv mx -> reach fa iv mx s ->
-  o = AcqBegin t \/ o = AcqNowait t ->
+  o = AcqBegin t \/ o = AcqNowait t \/ o = CkPass t ->
   length (held (fst (step s o))) + length (infl (fst (step s o))) > length (held s) + length (infl s) ->
   value s = S (value (fst (step s o))) /\ waiters s = [].
 Proof. exact sem_grant_only_if_free. Qed.
@@ -93,6 +97,43 @@ Theorem C10_sem_cancel_no_leak_grantee : forall fa iv mx s t, max_ok iv mx -> re
       value s' = value s /\ S (length (infl s')) = length (infl s))).
 Proof. exact sem_cancelled_grantee_no_leak. Qed.
 Print Assumptions C10_sem_cancel_no_leak_grantee.
+
+(* ---- the cancellation check at the start of acquire() (F53, fixed in /repo by c2fb7fb): AcqBeginC = acquire()
+   called while a cancelled scope is visible; CkPass = the check returns normally after having yielded ---- *)
+Theorem C10_sem_check_yield_noeffect : forall s t, phase_of s t = Idle ->
+  step s (AcqBeginC t) = (set_phase s t CkYield, RBlocked) /\
+  value (set_phase s t CkYield) = value s /\ waiters (set_phase s t CkYield) = waiters s /\
+  futs (set_phase s t CkYield) = futs s /\ held (set_phase s t CkYield) = held s /\
+  infl (set_phase s t CkYield) = infl s /\ enq (set_phase s t CkYield) = enq s.
+Proof. exact sem_check_yield_noeffect. Qed.
+Print Assumptions C10_sem_check_yield_noeffect.
+
+Theorem C10_sem_check_cancelled_noeffect : forall s t, phase_of s t = CkYield -> mustc s t = true ->
+  step s (Resume t) = (leave s t, RCancelled) /\ step s (CkPass t) = (leave s t, RCancelled) /\
+  value (leave s t) = value s /\ waiters (leave s t) = waiters s /\ futs (leave s t) = futs s /\
+  held (leave s t) = held s /\ enq (leave s t) = enq s /\ phase_of (leave s t) t = Idle.
+Proof. exact sem_check_cancelled_noeffect. Qed.
+Print Assumptions C10_sem_check_cancelled_noeffect.
+
+Theorem C10_sem_check_spin : forall s t,
+  phase_of s t = CkYield -> mustc s t = false -> step s (Resume t) = (s, RBlocked).
+Proof. exact sem_check_spin. Qed.
+Print Assumptions C10_sem_check_spin.
+
+Theorem C10_sem_check_pass_is_fresh_acquire : forall s t, phase_of s t = CkYield -> mustc s t = false ->
+  step s (CkPass t) = step (leave s t) (AcqBegin t) /\
+  value (leave s t) = value s /\ waiters (leave s t) = waiters s /\ held (leave s t) = held s.
+Proof. exact sem_check_pass_is_fresh_acquire. Qed.
+Print Assumptions C10_sem_check_pass_is_fresh_acquire.
+
+Theorem C10_sem_check_order_refuted_pinned :
+  exists ops, let s := final step_f53_pinned (init false 1 None) ops in
+    held s = [1; 2] /\ infl s = [] /\ extra s = 0 /\ dropped s = 0 /\ value s = 0 /\
+    length (held s) > 1 + extra s /\
+    value s + length (held s) + length (infl s) + dropped s <> 1 + extra s /\
+    (forall t, t < 3 -> phase_of s t = Idle).
+Proof. exact sem_check_order_refuted_pinned. Qed.
+Print Assumptions C10_sem_check_order_refuted_pinned.
 
 Theorem C10_sem_release_beyond_max_rejected : forall s t,
   phase_of s t = Idle -> maxv s = Some (value s) -> step s (Release t) = (s, RValue).
@@ -121,6 +162,29 @@ Theorem C10_tie_sem_acquire_entry : forall s t,
   step s (AcqBegin t) = lift s t KAcquire (exec sem_acquire_entry t (loc_entry None None) log0 (core s)).
 Proof. exact tie_acquire_entry. Qed.
 Print Assumptions C10_tie_sem_acquire_entry.
+
+Theorem C10_tie_sem_acq_body : forall s t,
+  acq_body s t = lift s t KAcquire (exec sem_acquire_entry t (loc_entry None None) log0 (core s)).
+Proof. exact tie_acq_body. Qed.
+Print Assumptions C10_tie_sem_acq_body.
+
+Theorem C10_tie_sem_acquire_check_first :
+  exists body, sem_acquire_entry = SSeq SCkIf body /\
+    forall t l g k, l_fresh l = true -> l_canc l = false ->
+      exec sem_acquire_entry t l g k = exec body t l g k.
+Proof. exact tie_acquire_check_first. Qed.
+Print Assumptions C10_tie_sem_acquire_check_first.
+
+Theorem C10_tie_sem_acquire_entry_cancelled : forall s t, phase_of s t = Idle ->
+  step s (AcqBeginC t) = lift_ck s t (exec sem_acquire_entry t (loc_entry_cancelled None) log0 (core s)).
+Proof. exact tie_acquire_entry_cancelled. Qed.
+Print Assumptions C10_tie_sem_acquire_entry_cancelled.
+
+Theorem C10_tie_sem_acquire_check_pass : forall s t, phase_of s t = CkYield -> mustc s t = false ->
+  step s (CkPass t) =
+  lift (leave s t) t KAcquire (exec sem_acquire_entry t (loc_entry None None) log0 (core (leave s t))).
+Proof. exact tie_acquire_check_pass. Qed.
+Print Assumptions C10_tie_sem_acquire_check_pass.
 
 Theorem C10_tie_sem_acquire_yield_resumed : forall s t,
   phase_of s t = FastYield -> mustc s t = false ->
@@ -214,7 +278,7 @@ Print Assumptions C10_tie_sem_gen_conservation.
 
 Theorem C10_tie_sem_gen_grant_only_if_free : forall fa iv mx ops t o, max_ok iv mx ->
   let s := final (gstep sem_prog) (init fa iv mx) ops in
-  o = AcqBegin t \/ o = AcqNowait t ->
+  o = AcqBegin t \/ o = AcqNowait t \/ o = CkPass t ->
   length (held (fst (gstep sem_prog s o))) + length (infl (fst (gstep sem_prog s o))) >
     length (held s) + length (infl s) ->
   value s = S (value (fst (gstep sem_prog s o))) /\ waiters s = [].
